@@ -521,7 +521,7 @@ def r9(F, R):
                         meth if via else op, cmd, "parked" if cmd == "Pause" else "woken", "pause" if cmd == "Pause" else "resume"))
     if n == 0:
         R.missing("C12-R9", "senders of ChainCommand")
-    R.floor("C12-R9", 4)
+    R.floor("C12-R9", 2)     # one site that parks and one that wakes, at least
 
 
 def r7(F, R, w):
